@@ -178,6 +178,8 @@ def apply_event(kind, obj, ev):
         mr, lg = ev["flags"]
         if sels is None:
             return MK.clear_markings(obj)
+        if (mr, lg) == (True, True):
+            return MK.clear_markings(obj, sels)           # as callers write it: the options default to "both kinds"
         return MK.clear_markings(obj, sels, marking_ref=mr, lang=lg)
     marks = [concrete_marking(x, ver) for x in ev["m"]]
     marks = marks[0] if len(marks) == 1 else marks
@@ -189,6 +191,8 @@ def apply_event(kind, obj, ev):
         mr, lg = ev["flags"]
         if sels is None:
             return MK.set_markings(obj, marks)
+        if (mr, lg) == (True, True):
+            return MK.set_markings(obj, marks, sels)
         return MK.set_markings(obj, marks, sels, marking_ref=mr, lang=lg)
     raise ValueError(ev)
 
